@@ -22,6 +22,7 @@ type Report struct {
 	loadS     float64
 	start     time.Time
 	undecided int
+	viaCallee []string // functions included because a function of the property calls them (their whole contract is checked)
 	bounded   []map[string]interface{}
 	extraViol []string
 }
@@ -263,6 +264,7 @@ func (r *Report) finish() int {
 		"trusted_base":             trusted,
 		"samples":                  samples,
 		"functions_under_contract": fnames,
+		"functions_via_callee_closure": r.viaCallee,
 		"backends":                 backends,
 		"solver_seconds":           round3(solverS),
 		"load_seconds":             round3(r.loadS),
